@@ -278,7 +278,7 @@ pub fn run(ctx: &Ctx, rep: &mut Report) {
     rep.exhaustive = true;
     rep.assumptions.push("exhaustive only for the payload-ID sub-check; packet and OTI sub-checks are sampled".into());
     rep.absorb("payload_id", payload_ids_exhaustive());
-    let n = ctx.tier.pick(200_000u64, 4_000_000);
+    let n = ctx.tier.pick(2_000_000u64, 20_000_000);
     rep.absorb(
         "packet",
         run_sharded(
